@@ -5,6 +5,7 @@ import (
 	"go/constant"
 	"go/token"
 	"go/types"
+	"strings"
 
 	"golang.org/x/tools/go/ssa"
 )
@@ -773,5 +774,94 @@ func (c *Ctx) magicRadix() {
 	}
 	if n < 2 {
 		c.bad(R, "both tag forms found", f.Pos(), fmt.Sprintf("only %d (ParseUint, ReadUint) pairs found in Magic.ValidateTag; the binary and the hexadecimal form were confirmed", n))
+	}
+}
+
+// hashIndexCounter: in newImmutableCell the per-level loop has two counters: the level itself and
+// the number of SIGNIFICANT levels seen so far. The hashes are stored one per significant level,
+// so everything that indexes or counts hashes (imm.hashes[...], the comparisons with the pruned
+// offset) must use the significant-level counter - with the raw level a mask with a gap (0b10,
+// 0b101) indexes past the hashes computed so far.
+func (c *Ctx) hashIndexCounter() {
+	const R = "E10.hash-index-counter"
+	f := c.mustFn(R, "boc", "newImmutableCell")
+	if f == nil {
+		return
+	}
+	sig := map[*ssa.Phi]bool{}   // incremented only where IsSignificant held
+	plain := map[*ssa.Phi]bool{} // incremented on every trip
+	allInstrs(f, func(b *ssa.BasicBlock, in ssa.Instruction) {
+		bo, ok := in.(*ssa.BinOp)
+		if !ok || bo.Op != token.ADD {
+			return
+		}
+		ph, ok := bo.X.(*ssa.Phi)
+		if !ok {
+			return
+		}
+		if k, ok := constInt(bo.Y); !ok || k != 1 {
+			return
+		}
+		back := false
+		for _, e := range ph.Edges {
+			if e == ssa.Value(bo) {
+				back = true
+			}
+		}
+		if !back && !derivesFrom(ph, func(v ssa.Value) bool { return v == ssa.Value(bo) }, false) {
+			return
+		}
+		guarded := false
+		for _, ft := range factsAt(f, b) {
+			if cl := callOf(ft.Cond); cl != nil && strings.HasSuffix(callQName(&cl.Call), "levelMask.IsSignificant") && ft.Truth {
+				guarded = true
+			}
+		}
+		if guarded {
+			sig[ph] = true
+		} else {
+			plain[ph] = true
+		}
+	})
+	if len(sig) == 0 {
+		c.bad(R, "a counter of significant levels exists", f.Pos(), "newImmutableCell has no counter that is incremented only for significant levels: the position of a level's hash among the stored hashes is the number of significant levels below it, not the level")
+		return
+	}
+	fromSig := func(v ssa.Value) bool {
+		return derivesFrom(v, func(x ssa.Value) bool {
+			if ph, ok := x.(*ssa.Phi); ok && sig[ph] {
+				return true
+			}
+			// the incremented value itself
+			if bo, ok := x.(*ssa.BinOp); ok && bo.Op == token.ADD {
+				if ph, ok := bo.X.(*ssa.Phi); ok && sig[ph] {
+					return true
+				}
+			}
+			return false
+		}, false)
+	}
+	n := 0
+	allInstrs(f, func(_ *ssa.BasicBlock, in ssa.Instruction) {
+		ia, ok := in.(*ssa.IndexAddr)
+		if !ok {
+			return
+		}
+		if _, isConst := constInt(ia.Index); isConst {
+			return
+		}
+		ld, ok := ia.X.(*ssa.UnOp)
+		if !ok {
+			return
+		}
+		_, fn, ok := fieldOf(ld.X)
+		if !ok || fn != "hashes" {
+			return
+		}
+		n++
+		c.check(fromSig(ia.Index), R, "the previous hash is found by the significant-level counter", ia.Pos(), shape(ia.Index, 3), "newImmutableCell indexes the stored hashes with "+shape(ia.Index, 3)+", which does not come from the counter of significant levels: for a level mask with a gap the index runs ahead of the hashes computed so far (index out of range when hashing a parsed cell)")
+	})
+	if n == 0 {
+		c.bad(R, "the previous hash is found by the significant-level counter", f.Pos(), "newImmutableCell no longer indexes imm.hashes with a computed position (undecided)")
 	}
 }
